@@ -322,7 +322,8 @@ pub(crate) fn dict_methods(registry: &mut MethodsBuilder) {
             pairs.map(|x| x.get())
         };
 
-        let mut this = DictMut::from_value(this)?;
+        let this_value = this;
+        let mut this = DictMut::from_value(this_value)?;
         if let Some(pairs) = pairs {
             match DictRef::from_value(pairs) {
                 Some(dict) => {
@@ -331,6 +332,9 @@ pub(crate) fn dict_methods(registry: &mut MethodsBuilder) {
                     }
                 }
                 _ => {
+                    // An element of `pairs` may be this very dict (`x.update([x])`), and iterating it
+                    // takes a shared borrow, so the mutable borrow must not be held across the iteration.
+                    mem::drop(this);
                     for v in pairs.iterate(heap)? {
                         let mut it = v.iterate(heap)?;
                         // `StarlarkIterator` is fused.
@@ -339,8 +343,12 @@ pub(crate) fn dict_methods(registry: &mut MethodsBuilder) {
                             "dict.update expect a list of pairs or a dictionary as first argument, got a list of non-pairs.",
                         ).into());
                         };
-                        this.aref.insert_hashed(k.get_hashed()?, v);
+                        mem::drop(it);
+                        DictMut::from_value(this_value)?
+                            .aref
+                            .insert_hashed(k.get_hashed()?, v);
                     }
+                    this = DictMut::from_value(this_value)?;
                 }
             }
         }
